@@ -26,7 +26,7 @@ ASSUMPTIONS = [
     "order of full_join's output is not asserted; left and right items share no non-key names",
     "every item has all join/group keys; key values are mutually comparable per key",
 ]
-REACH = {"quick": {"op:left_join": 800, "op:full_join": 800, "op:aggregate": 800, "renamed": 1500, "none-key": 1500, "empty-operand": 400, "dup-right": 1500, "long-right": 200, "aggregate-history": 150}}
+REACH = {"quick": {"op:left_join": 800, "op:full_join": 800, "op:aggregate": 800, "renamed": 1500, "none-key": 1500, "empty-operand": 400, "dup-right": 1500, "long-right": 200, "aggregate-history": 120}}
 
 OPS = ["left_join", "inner_join", "semi_join", "anti_join", "full_join", "aggregate"]
 
